@@ -307,9 +307,9 @@ Theorem C17_escape_chain_facts :
 Proof. exact chain_facts. Qed.
 Print Assumptions C17_escape_chain_facts.
 
-(* Example C17_path_trigraph_safe_live :
-     forallb path_trigraph_ok [c_support_side; c_type_side; cpp_support_side; cpp_type_side] = true.
-   Proof. vm_compute. reflexivity. Qed. *)
+Example C17_path_trigraph_safe_live :
+  forallb (fun sd => path_trigraph_ok sd && path_chain_expected sd) [c_support_side; c_type_side; cpp_support_side; cpp_type_side] = true.
+Proof. exact all_paths_trigraph_safe. Qed.
 
 (* ---- non-vacuity ---- *)
 (* the hypotheses of (1) are satisfied by the defaults of properties.yaml ... *)
